@@ -31,13 +31,16 @@ from . import transformers
 
 
 def sdv(name: str, range_expr_s: Sequence[StringSdv]) -> StringTransformerSdv:
-    range_expr_handlers = [
-        _RangeExprHandler(re)
-        for re in range_expr_s
-    ]
     references = collection.concat_list([s.references for s in range_expr_s])
 
     def make_ddv(symbols: SymbolTable) -> StringTransformerDdv:
+        # The handlers hold values resolved using the symbol table,
+        # so they must not be shared between resolvings
+        # (the sdv of an instruction in a suite is resolved by every test case).
+        range_expr_handlers = [
+            _RangeExprHandler(re)
+            for re in range_expr_s
+        ]
         for range_expr_handler in range_expr_handlers:
             range_expr_handler.resolve(symbols)
 
@@ -94,7 +97,7 @@ class _LineNumRangeTransformerDdv(StringTransformerDdv):
 
     def value_of_any_dependency(self, tcds: TestCaseDs) -> StringTransformerAdv:
         ranges = [
-            reh.validator.range_after_validation
+            reh.validator.range()
             for reh in self._range_expr_handlers
         ]
         return _LineNumRangeTransformerAdv(self._name, self.structure, ranges)
@@ -150,6 +153,14 @@ class _RangeValidator(DdvValidator):
 
     def validate_post_sds_if_applicable(self, tcds: TestCaseDs) -> Optional[TextRenderer]:
         return None
+
+    def range(self) -> Range:
+        """
+        Precondition: The range expression has been validated (by any object)
+        """
+        if self.range_after_validation is None:
+            self.range_after_validation = _RangeParser(self._range_expr).parse()
+        return self.range_after_validation
 
 
 class _RangeParser:
